@@ -50,8 +50,13 @@ int blake2s(void *out, size_t outlen, const void *in, size_t inlen, const void *
 __CPROVER_requires(inlen <= VC2W_MAXIN && keylen <= 40 && g2w.calls == 0)
 /* out: NULL or a buffer of EXACTLY min(outlen, 32) bytes; in / key: NULL or exactly the stated length */
 __CPROVER_requires(out == NULL || __CPROVER_is_fresh(out, outlen <= 32 ? outlen : 32))
+#ifdef VC_B2W_NONULL
+__CPROVER_requires(__CPROVER_is_fresh(in, inlen))
+__CPROVER_requires(__CPROVER_is_fresh(key, keylen))
+#else
 __CPROVER_requires(in == NULL || __CPROVER_is_fresh(in, inlen))
 __CPROVER_requires(key == NULL || __CPROVER_is_fresh(key, keylen))
+#endif
 __CPROVER_assigns(!VC2W_REJ: __CPROVER_object_upto((uint8_t *)out, outlen))
 VC_ASSIGNS(__CPROVER_object_whole(&g2w))
 /* not a valid request: error, nothing is called, nothing written */
